@@ -124,6 +124,29 @@ def event(rows, ids, cid, variant, seed, big=False):
             e["out"]["columns_ok"] = bool(len(vals.columns) == len(ths) and
                                           all(float(a) == float(b) for a, b in zip(vals.columns, ths)))
             e["out"]["values"] = [[gamma.proj_rat(x, 5000) for x in row] for row in np.asarray(vals.values, dtype=float)]
+            # the markdown rendering (beyond the listed property: EXT clause): one table row per group,
+            # the first number of every cell is the reported value to three decimals
+            try:
+                md = r.to_markdown()
+                body = [ln for ln in md.splitlines()[2:] if ln.strip().startswith("|")]
+                cells = []
+                for ln in body:
+                    allp = [c_.strip() for c_ in ln.strip().strip("|").split("|")]
+                    if not allp[0]:
+                        continue                       # continuation line of a multi-line (interval) cell
+                    parts = allp[-len(ths):]
+                    row = []
+                    for c_ in parts:
+                        tok = c_.split()[0] if c_.split() else "nan"
+                        try:
+                            x_ = float(tok)
+                        except ValueError:
+                            x_ = float("nan")
+                        row.append(NANLIM if x_ != x_ else int(round(max(-1e6, min(1e6, x_)) * 1000)))
+                    cells.append(row)
+                e["out"]["md"] = cells
+            except ImportError:
+                pass
             if boot != "none":
                 lo, up = r.lower, r.upper
                 e["out"]["ci_labels_same"] = bool(lo is not None and up is not None and
